@@ -374,8 +374,8 @@ class Signal(Dev):
         self.subs = []
 
     def subscribe(self, cb, event_type=None, run=False):
+        self.subs.append(cb)  # registered first: a device may fail after it has taken the callback
         self.lab.device_call(self, "subscribe")
-        self.subs.append(cb)
         if run:
             cb(value=self.value, timestamp=self.lab.clock.t, obj=self)
         return len(self.subs)
